@@ -13,6 +13,12 @@ CHECKS = {
  'C02': ('exploration', 'model-based property testing: generated trees/invocations vs a reference model of cp\'s mapping rule, whole-sandbox snapshot diff',
          'Generated sandboxes (sources, destination pre-states incl. real earlier runs, bystanders, spellings, glob, -T, --target-directory) run through the real binary; exit-0 post-state must equal the reference model overlay exactly.',
          'reference model written from the property statement; excluded shapes listed in DESIGN.md section 5', '6/C02'),
+ 'C03': ('fault_enumeration', 'property-based testing of alias relations (whole-sandbox snapshot equality) + kill-point injection and syscall-trace invariant under the ptrace supervisor',
+         'Generated alias relations between source and destination must leave the sandbox byte-and-metadata identical; generated copies are run under the supervisor and every entry that is not a mapped destination must be unchanged after success, failure, or a SIGKILL placed before/after a generated mutating system call; additionally no mutating call may target a non-destination path.',
+         'kill points are system-call boundaries; atime/ctime/st_blocks not compared', '6/C03'),
+ 'C04': ('fault_enumeration', 'system-call fault injection (ptrace) at generated fault points of a recorded run; reference-model oracle on exit 0',
+         'For generated copies, a recording run enumerates every (call, path, k) fault point of every thread; one (thorough: two) generated point is failed with a man-page errno and the run must either exit non-zero with a message or leave a destination equal to the reference model including requested mode/mtime/fsync/backup.',
+         'errno returned without side effect (early failure); single faults quick, pairs thorough; one listed known finding (glob expansion)', '6/C04'),
  'C05': ('fault_enumeration', 'fault injection by ptrace supervisor (short counts, unsupported-facility errnos) over proptest-generated files; byte round-trip oracle',
          'Each generated file case is run under a generated fault plan that shortens or fails copy/read/write/clone/extent calls exactly as a kernel legally may; exit 0 must still mean byte-exact.',
          'x86-64 ptrace; injected results are indistinguishable from kernel results; FICLONE success is not available on this filesystem (see C15)', '6/C05'),
